@@ -335,11 +335,11 @@ def nontrivial(c):
 
 def plan(tier):
     jobs = []
-    n = 12 if tier == "quick" else 48
+    n = 12 if tier == "quick" else 64
     for _ in range(n):
-        jobs.append({"part": "generic", "examples": 300 if tier == "quick" else 2500})
+        jobs.append({"part": "generic", "examples": 300 if tier == "quick" else 9000})
     for _ in range(4 if tier == "quick" else 16):
-        jobs.append({"part": "helper", "examples": 100 if tier == "quick" else 1200})
+        jobs.append({"part": "helper", "examples": 100 if tier == "quick" else 4000})
     return jobs
 
 
